@@ -11,7 +11,12 @@ cases are sent to the Lean model (`drivers/C17.lean`) whose frame counts come fr
 tables (tie G); the two answers are compared (tie C).
 """
 import functools
+import json
+import multiprocessing
 import os
+import shutil
+import subprocess
+import tempfile
 import select
 import signal
 import sys
@@ -425,7 +430,7 @@ class Env:
 
 def _invoke(k):
     """the single call site through which every chain is entered (so outer frames are stable)"""
-    tid = threading.get_ident()
+    tid = (threading.get_ident(), threading.current_thread().name, multiprocessing.current_process().name)
     t0 = time.time()
     err = None
     try:
@@ -438,12 +443,23 @@ def _invoke(k):
 def _sweep(jobs, prepare, sink):
     """each job's outcome and the records it produced"""
     out = []
-    for job in jobs:
-        k = prepare(job)
-        r0 = len(sink.records)
-        o = _invoke(k)
-        out.append((o, sink.records[r0:]))
-        del sink.records[r0:]
+    th, pr = threading.current_thread(), multiprocessing.current_process()
+    tname0, pname0 = th.name, pr.name
+    try:
+        for job in jobs:
+            k = prepare(job)
+            rn = job.get("rename")
+            if rn:                      # the calling thread / process is renamed between two logging calls
+                if rn[0] == "thread":
+                    th.name = rn[1]
+                else:
+                    pr.name = rn[1]
+            r0 = len(sink.records)
+            o = _invoke(k)
+            out.append((o, sink.records[r0:]))
+            del sink.records[r0:]
+    finally:
+        th.name, pr.name = tname0, pname0
     return out
 
 
@@ -484,6 +500,10 @@ SHAPE_OF = {"with": "with", "with_nested": "with", "deco_func": "function", "dec
 FINDING_KEY = {"async_with": KEY_ASYNC_WITH, "deco_agen_for": KEY_ASYNC_FOR}
 
 
+ACTOR_NAMES = ["job-alpha", "job-beta", "", "MainThread", "MainProcess", "with space", "Ünï-名前", "x" * 60, "Thread-1",
+               "{process}", "worker/1", "c17-worker"]
+
+
 def rng_from_state(state):
     r = core.Rng(0)
     r.s = state
@@ -512,12 +532,15 @@ def make_jobs(chain, rng, ctx, full_sweep, total_hint):
             leaf = rng.choice(leaves_plain)
         else:
             leaf = rng.choice(CATCH_LEAVES)
+        rn = None
+        if rng.chance(12):
+            rn = [rng.choice(["thread", "thread", "process"]), rng.choice(ACTOR_NAMES)]
         jobs.append({"leaf": leaf, "method": rng.choice(METHODS), "via": rng.choice(VIAS), "depth": d,
-                     "flags": rng.below(64), "reraise": rng.chance(15)})
+                     "flags": rng.below(64), "reraise": rng.chance(15), "rename": rn})
     return jobs
 
 
-def run_chain(ctx, env, chain_state, nlinks, in_thread, foreign, full_sweep, lines, pending_cmp, only_job=None,
+def run_chain(ctx, env, chain_state, nlinks, in_thread, foreign, full_sweep, lines, pending_cmp, only_jobs=None,
               verbose=False):
     """build the chain from its PRNG state, sweep it, judge every record by the tags; returns #bad"""
     rng = rng_from_state(chain_state)
@@ -575,13 +598,14 @@ def run_chain(ctx, env, chain_state, nlinks, in_thread, foreign, full_sweep, lin
                 outer = w[len(tags):]
             elif w[len(tags):] != outer:
                 raise RuntimeError("C17 harness self-check: outer frames differ between leaves (%s)" % l)
-        jobs = make_jobs(chain, rng, ctx, full_sweep, len(walk)) if only_job is None else [only_job]
+        jobs = make_jobs(chain, rng, ctx, full_sweep, len(walk)) if only_jobs is None else [dict(j) for j in only_jobs]
         todo = jobs
     bad = 0
 
     start_us = to_us(env.lm.start_time)
-    for job, (o, rs) in zip(jobs, recs_by_job):
-        res, err, tid, t0, t1 = o
+    JK = ("leaf", "method", "via", "depth", "flags", "reraise", "rename")
+    for ji, (job, (o, rs)) in enumerate(zip(jobs, recs_by_job)):
+        res, err, (tid, tname, pname), t0, t1 = o
         leaf, d = job["leaf"], job["eff"]
         E = chain.tags_for(leaf) + outer
         exp_tag = E[d] if d < len(E) else PLACEHOLDER
@@ -597,7 +621,7 @@ def run_chain(ctx, env, chain_state, nlinks, in_thread, foreign, full_sweep, lin
                                                                    ("noname" if exp["name"] is None else "chain-frame"))))
         ctx.stat("thread:" + ("foreign" if foreign else "worker" if in_thread else "main"))
         replay = {"stream": "chain", "chain_state": chain_state, "nlinks": nlinks, "in_thread": in_thread, "foreign": foreign,
-                  "job": {k: job[k] for k in ("leaf", "method", "via", "depth", "flags", "reraise")}}
+                  "job": {k: job.get(k) for k in JK}}
         fkey = FINDING_KEY.get(leaf)
         what = None
         if err is not None and not (is_catch and job["reraise"] and isinstance(err, ValueError) and str(err) == "boom"):
@@ -615,6 +639,10 @@ def run_chain(ctx, env, chain_state, nlinks, in_thread, foreign, full_sweep, lin
                 what = "record thread id %r, calling thread %r" % (rec["thread"].id, tid)
             elif rec["process"].id != os.getpid():
                 what = "record process id %r, calling process %r" % (rec["process"].id, os.getpid())
+            elif rec["thread"].name != tname:
+                what = "record thread name %r, the calling thread is named %r at the time of the call" % (rec["thread"].name, tname)
+            elif rec["process"].name != pname:
+                what = "record process name %r, the calling process is named %r at the time of the call" % (rec["process"].name, pname)
             else:
                 what = judge_time(rec, t0, t1, env)
             if verbose:
@@ -626,6 +654,8 @@ def run_chain(ctx, env, chain_state, nlinks, in_thread, foreign, full_sweep, lin
                 leaf, job["via"], job["method"] if not is_catch else "catch", job["depth"],
                 "worker" if in_thread else "main", "->".join(chain.kinds), what)
             replay["expected"], replay["observed"] = exp, obs
+            # the calls made before this one in the same thread (a stale cache needs the whole sequence)
+            replay["jobs_before"] = [{k: j.get(k) for k in JK} for j in jobs[max(0, ji - 40):ji]]
             report(ctx, full, replay, key=fkey)
             if verbose:
                 print("  " + full)
@@ -886,6 +916,246 @@ def stream_witnesses(ctx, env, only=None):
                    {"stream": "witness", "program": fn, "expected": list(exp), "observed": [list(o) for o in obs]}, key=key)
 
 
+# ----------------------------------------------------------------------------- identity streams
+# "thread and process fields identify the calling thread and process" AT THE TIME OF THE CALL: sequences of logging
+# calls per actor (main thread, threading.Thread, raw _thread thread, nested threads, multiprocessing children started
+# with fork / spawn / forkserver) with the thread / process RENAMED between calls.  The same op interpreter runs
+# in-process and inside real multiprocessing children (there through a generated program, see MP_PROGRAM).
+IDENT_FORMAT = "{process}|{process.id}|{process.name}|{thread}|{thread.id}|{thread.name}|{message}"
+
+
+def gen_ops(rng, depth=0):
+    ops = []
+    for _ in range(rng.range(2, 7)):
+        r = rng.below(100)
+        if r < 50:
+            ops.append(["log", rng.choice(METHODS)])
+        elif r < 70:
+            ops.append(["rename_thread", rng.choice(ACTOR_NAMES)])
+        elif r < 85:
+            ops.append(["rename_process", rng.choice(ACTOR_NAMES)])
+        elif depth < 2:
+            ops.append(["thread", rng.choice(["threading", "threading", "_thread"]), rng.choice(ACTOR_NAMES + [None]),
+                        gen_ops(rng, depth + 1)])
+    ops.append(["log", rng.choice(METHODS)])
+    return ops
+
+
+def run_ops(lg, ops, out, path="0"):
+    """interpret ops in the CURRENT thread; every log appends an observation: what the record says next to what
+    the interpreter reads for the calling thread / process immediately before the call"""
+    for i, op in enumerate(ops):
+        kind = op[0]
+        if kind == "log":
+            act = [os.getpid(), multiprocessing.current_process().name, threading.get_ident(), threading.current_thread().name]
+            box = []
+            hid = lg.add(lambda m: box.append((m.record, str(m))), format=IDENT_FORMAT, level=0, colorize=False, catch=False,
+                         backtrace=False, diagnose=False)
+            err = None
+            try:
+                msg = "m%s.%d" % (path, i)
+                if op[1] == "log":
+                    lg.log("INFO", msg)
+                elif op[1] == "exception":
+                    lg.opt(exception=None).error(msg)
+                else:
+                    getattr(lg, op[1])(msg)
+            except Exception as e:  # noqa: BLE001
+                err = repr(e)
+            finally:
+                lg.remove(hid)
+            o = {"at": "%s.%d" % (path, i), "act": act, "err": err, "n": len(box)}
+            if box:
+                rec, text = box[0]
+                o["rec"] = [rec["process"].id, rec["process"].name, rec["thread"].id, rec["thread"].name]
+                o["fmt"] = text.rstrip("\n")
+                o["fmt_exp"] = "%s|%s|%s|%s|%s|%s|%s" % (act[0], act[0], act[1], act[2], act[2], act[3], msg)
+            out.append(o)
+        elif kind == "rename_thread":
+            threading.current_thread().name = op[1]
+        elif kind == "rename_process":
+            multiprocessing.current_process().name = op[1]
+        elif kind == "thread":
+            done = threading.Event()
+            sub = []
+
+            def body(op=op, sub=sub, done=done, p="%s.%d" % (path, i)):
+                try:
+                    run_ops(lg, op[3], sub, p)
+                except BaseException as e:  # noqa: BLE001
+                    sub.append({"at": p, "crash": repr(e)})
+                finally:
+                    done.set()
+            if op[1] == "_thread":
+                import _thread
+                _thread.start_new_thread(body, ())
+            else:
+                th = threading.Thread(target=body, **({"name": op[2]} if op[2] is not None else {}))
+                th.start()
+            if not done.wait(30):
+                out.append({"at": "%s.%d" % (path, i), "crash": "nested thread did not finish within 30 s"})
+            elif op[1] != "_thread":
+                th.join(10)
+            out.extend(sub)
+
+
+def judge_ops(ctx, obs, replay, where):
+    bad = 0
+    for o in obs:
+        ctx.case(("identity", where, json.dumps(replay.get("scenario", replay), sort_keys=True, default=str)[:400], o.get("at")), nontrivial=True)
+        ctx.stat("identity_logs:" + where)
+        what = None
+        if "crash" in o:
+            raise RuntimeError("C17 harness: identity scenario crashed: %r" % (o,))
+        if o["err"] is not None:
+            what = "logging call raised %s" % o["err"]
+        elif o["n"] != 1:
+            what = "%d records instead of one" % o["n"]
+        elif o["rec"] != o["act"]:
+            what = "record (process.id, process.name, thread.id, thread.name) = %r, the calling process/thread at the time of " \
+                   "the call is %r" % (tuple(o["rec"]), tuple(o["act"]))
+        elif o["fmt"] != o["fmt_exp"]:
+            what = "'%s' rendered %r, expected %r" % (IDENT_FORMAT, o["fmt"], o["fmt_exp"])
+        if what:
+            bad += 1
+            report(ctx, "%s, call %s: %s" % (where, o["at"], what), dict(replay, at=o["at"], expected=o["act"], observed=o.get("rec")))
+    return bad
+
+
+def run_identity_inproc(env, scenario):
+    """actor: main thread / threading.Thread / _thread; names restored afterwards"""
+    th, pr = threading.current_thread(), multiprocessing.current_process()
+    tname0, pname0 = th.name, pr.name
+    out = []
+    try:
+        if scenario["actor"] == "main":
+            run_ops(env.logger, scenario["ops"], out)
+        else:
+            run_ops(env.logger, [["thread", scenario["actor"], scenario.get("tname"), scenario["ops"]]], out)
+    finally:
+        th.name, pr.name = tname0, pname0
+    return out
+
+
+def stream_identity(ctx, env):
+    rng = ctx.rng.fork("identity")
+    for i in range(ctx.n(40, 1500)):
+        sc = {"actor": rng.choice(["main", "threading", "threading", "_thread"]), "tname": rng.choice(ACTOR_NAMES + [None]),
+              "ops": gen_ops(rng)}
+        obs = run_identity_inproc(env, sc)
+        ctx.stat("identity_scenarios")
+        judge_ops(ctx, obs, {"stream": "identity", "scenario": sc}, "in-process " + sc["actor"])
+        if len(ctx.violations) >= 25:
+            break
+
+
+MP_PROGRAM = """# generated by harness/c17.py: a program whose MAIN MODULE imports loguru (as applications do) and starts
+# real multiprocessing children; spawn / forkserver children re-import this module before they run
+import sys
+sys.path[:0] = [%(repo)r, %(verif)r]
+import loguru  # noqa: E402,F401
+from harness import c17  # noqa: E402
+
+if __name__ == "__main__":
+    c17.mp_main(sys.argv[1])
+"""
+
+
+def picklable_sink(message):
+    pass
+
+
+def mp_child(conn, ops, lg):
+    """runs inside a multiprocessing child (any start method)"""
+    out = []
+    try:
+        if lg is None:
+            import loguru
+            lg = loguru.logger
+        run_ops(lg, ops, out)
+    except BaseException as e:  # noqa: BLE001
+        out.append({"at": "child", "crash": repr(e)})
+    conn.send(out)
+    conn.close()
+
+
+def mp_main(spec_path):
+    """main of the generated program: one child per scenario, answers as JSON on stdout"""
+    import loguru
+    scenarios = json.load(open(spec_path))
+    loguru.logger.remove()
+    results = []
+    for sc in scenarios:
+        mctx = multiprocessing.get_context(sc["ctx"])
+        lg = None
+        if sc.get("pass_logger"):
+            lg = loguru.logger.bind(passed=True)
+            if sc["ctx"] == "fork" and sc.get("parent_handler"):
+                loguru.logger.add(picklable_sink, format="{message}")
+        parent, child = mctx.Pipe(duplex=False)
+        kw = {"name": sc["pname"]} if sc.get("pname") is not None else {}
+        p = mctx.Process(target=mp_child, args=(child, sc["ops"], lg), **kw)
+        p.start()
+        child.close()
+        if parent.poll(60):
+            try:
+                results.append(parent.recv())
+            except EOFError:
+                results.append([{"at": "child", "crash": "child closed the pipe without an answer"}])
+        else:
+            results.append([{"at": "child", "crash": "no answer within 60 s"}])
+        p.join(15)
+        if p.is_alive():
+            p.kill()
+            p.join(5)
+        loguru.logger.remove()
+    sys.stdout.write("C17-MP-RESULTS " + json.dumps(results) + "\n")
+    sys.stdout.flush()
+
+
+def run_identity_mp(scenarios):
+    """execute the scenarios in real multiprocessing children; returns one observation list per scenario"""
+    d = tempfile.mkdtemp(prefix="c17mp")
+    try:
+        prog = os.path.join(d, "c17_mp_prog.py")
+        with open(prog, "w", encoding="utf8") as f:
+            f.write(MP_PROGRAM % {"repo": core.REPO, "verif": core.VERIF})
+        spec = os.path.join(d, "spec.json")
+        with open(spec, "w", encoding="utf8") as f:
+            json.dump(scenarios, f)
+        env = dict(os.environ, PYTHONDONTWRITEBYTECODE="1")
+        try:
+            p = subprocess.run([sys.executable, prog, spec], cwd=d, env=env, stdout=subprocess.PIPE, stderr=subprocess.PIPE,
+                               timeout=90 + 75 * len(scenarios))
+        except subprocess.TimeoutExpired:
+            raise RuntimeError("C17 harness: multiprocessing program timed out") from None
+        for line in p.stdout.decode("utf8", "replace").splitlines():
+            if line.startswith("C17-MP-RESULTS "):
+                return json.loads(line[len("C17-MP-RESULTS "):])
+        raise RuntimeError("C17 harness: multiprocessing program gave no result (rc=%s)\n%s"
+                           % (p.returncode, p.stderr.decode("utf8", "replace")[-3000:]))
+    finally:
+        shutil.rmtree(d, ignore_errors=True)
+
+
+def gen_mp_scenarios(rng, n):
+    methods = [m for m in ("fork", "spawn", "forkserver") if m in multiprocessing.get_all_start_methods()]
+    out = []
+    for i in range(n):
+        out.append({"ctx": methods[i % len(methods)], "pname": rng.choice(ACTOR_NAMES + [None, None]),
+                    "pass_logger": rng.chance(50), "parent_handler": rng.chance(50), "ops": gen_ops(rng)})
+    return out
+
+
+def stream_identity_mp(ctx, env):
+    rng = ctx.rng.fork("identity-mp")
+    scenarios = gen_mp_scenarios(rng, ctx.n(6, 45))
+    results = run_identity_mp(scenarios)
+    for sc, obs in zip(scenarios, results):
+        ctx.stat("mp_children:" + sc["ctx"])
+        judge_ops(ctx, obs, {"stream": "identity-mp", "scenario": sc}, "multiprocessing %s child" % sc["ctx"])
+
+
 CORPUS_DIR = os.path.join(core.VERIF, "corpus", "C17")
 
 
@@ -903,8 +1173,17 @@ def run_corpus(ctx, env, lines, pending_cmp):
         if c.get("stream") == "witness":
             stream_witnesses(ctx, env, only=c["program"])
             continue
+        if c.get("stream") == "identity":
+            judge_ops(ctx, run_identity_inproc(env, c["scenario"]), {"stream": "identity", "scenario": c["scenario"]},
+                      "in-process " + c["scenario"]["actor"])
+            continue
+        if c.get("stream") == "identity-mp":
+            obs, = run_identity_mp([c["scenario"]])
+            judge_ops(ctx, obs, {"stream": "identity-mp", "scenario": c["scenario"]},
+                      "multiprocessing %s child" % c["scenario"]["ctx"])
+            continue
         run_chain(ctx, env, c["chain_state"], c.get("nlinks"), c.get("in_thread", False), c.get("foreign", False), False,
-                  lines, pending_cmp, only_job=dict(c["job"]))
+                  lines, pending_cmp, only_jobs=[dict(c["job"])])
 
 
 class Corr:
@@ -952,6 +1231,8 @@ def run(ctx):
     try:
         run_corpus(ctx, env, corr.lines, corr.want)
         stream_fallback(ctx, env)
+        stream_identity(ctx, env)
+        stream_identity_mp(ctx, env)
         nchains = ctx.n(500, 9000) * boost
         for i in range(nchains):
             crng = ctx.rng.fork("chain%d" % i)
@@ -1000,16 +1281,26 @@ def replay(ctx, rep):
             print("chain_state=%d nlinks=%r job=%r thread=%s" % (r["chain_state"], r.get("nlinks"), r["job"], r.get("in_thread")))
             lines, cmp_ = [], []
             bad = run_chain(ctx, env, r["chain_state"], r.get("nlinks"), r.get("in_thread", False), r.get("foreign", False),
-                            False, lines, cmp_, only_job=dict(r["job"]), verbose=True)
+                            False, lines, cmp_, only_jobs=list(r.get("jobs_before", [])) + [dict(r["job"])], verbose=True)
             if lines:
                 try:
                     out = core.Driver(DRIVER).run(lines)
-                    print("model:         ", out[0])
+                    print("model:         ", out[-1])
                 except core.DriverError as e:
                     print("model:          unavailable (%s)" % str(e).splitlines()[0])
-                print("implementation:", cmp_[0][0])
+                print("implementation:", cmp_[-1][0])
         else:
             before = len(ctx.violations)
+            if r["stream"] in ("identity", "identity-mp"):
+                print("scenario:", json.dumps(r["scenario"]))
+                obs = run_identity_inproc(env, r["scenario"]) if r["stream"] == "identity" else run_identity_mp([r["scenario"]])[0]
+                for o in obs:
+                    print("  call %s: calling (pid, process, tid, thread) = %r  record = %r" % (o.get("at"), o.get("act"), o.get("rec")))
+                judge_ops(ctx, obs, {"stream": r["stream"], "scenario": r["scenario"]}, r["stream"])
+                for v in ctx.violations[before:]:
+                    print(v["what"])
+                print("REPRODUCED" if len(ctx.violations) > before else "not reproduced")
+                return 1 if len(ctx.violations) > before else 0
             {"witness": lambda: stream_witnesses(ctx, env, only=r.get("program")), "timezone": lambda: stream_timezone(ctx, env), "fork": lambda: stream_fork(ctx, env, 3),
              "fallback": lambda: stream_fallback(ctx, env), "fallback-e2e": lambda: stream_fallback(ctx, env)}[r["stream"]]()
             for v in ctx.violations[before:]:
